@@ -264,6 +264,14 @@ func PutOK(c byte, n int) {
 	okReg[c] = n
 	okMu.Unlock()
 }
+func PutDeferLit(c byte, n int) {
+	okMu.Lock()
+	defer func() { okMu.Unlock() }()
+	if n == 0 {
+		return
+	}
+	okReg[c] = n
+}
 `,
 	"band/band.go": `package band
 
@@ -468,6 +476,8 @@ func c10Fixture(c *Ctx) {
 		{"R7.unlock|lorawan.Put/G:regMu", fxBad},
 		{"R7.unlock|lorawan.PutOK/G:okMu", fxOK},
 		{"R7.unlock|lorawan.GetOK/G:okMu", fxOK},
+		{"R7.unlock|lorawan.PutDeferLit/G:okMu", fxOK},
+		{"R7.lock|lorawan.okReg@lorawan.PutDeferLit/map update okReg", fxOK},
 	})
 }
 
